@@ -370,6 +370,13 @@ def worlds(draw, ninst=3, hostile_names=True, split_paths=False, foreign_ids=Fal
                 foreign_instances = [{"f1": draw(inst_scalar)}, {"f2": draw(inst_scalar)}]
             else:
                 foreign_instances = []
+    if root_base == "" and defs and draw(st.integers(0, 11)) == 0:
+        # the root itself is a reference object; what stands next to $ref (anything but an id) is ignored in drafts <= 7
+        n = draw(st.sampled_from(sorted(defs)))
+        sib = draw(st.sampled_from([{"type": "string"}, {"type": "integer"}, {"type": "null"}, {"enum": ["zz-never"]},
+                                    {"minimum": 10 ** 9}, {"type": "object"}]))
+        root = dict([("$ref", "#" + optr.encode(["definitions", n]))] + list(sib.items()) + [(k, v) for k, v in root.items() if k not in sib])
+        classes.append("root-is-a-reference-with-siblings")
     lists = [n for n in defs if isinstance(defs[n], dict) and isinstance(defs[n].get("allOf", defs[n].get("extends")), list)]
     if lists and not exotic and isinstance(root.get("properties", {}), dict) and draw(st.integers(0, 3)) == 0:
         # a pointer into an ARRAY of subschemas: canonical indices designate an element, anything else nothing
@@ -406,6 +413,13 @@ def worlds(draw, ninst=3, hostile_names=True, split_paths=False, foreign_ids=Fal
         xs = xs[:1] + nested_instances
     if "recursive-root" in classes:
         xs[-1] = {"k": draw(st.one_of(inst_scalar, st.dictionaries(inst_keys, inst_scalar, max_size=2)))}
+        if draw(st.integers(0, 2)) == 0:
+            # the same reference entered once per level of a deeply nested instance (legitimate recursion, no cycle)
+            deep = draw(inst_scalar)
+            for _ in range(66):
+                deep = {"k": deep}
+            xs.append(deep)
+            classes.append("deep-recursion")
     if split_paths:
         inner = [(u, t) for (u, t) in targets if u != root_doc and t and t[-1] in ("r", "r/1", "~r")]
         if inner and not exotic and isinstance(root.get("properties", {}), dict):
